@@ -13,6 +13,8 @@ pub fn se_kind(e: &SE) -> String {
         SE::InvalidChunkSize => "err:chunksize".into(),
         SE::Amf0SerializationError(a) => format!("err:amf:{}", &amf_se(a)[4..]),
         SE::Io(_) => "err:io".into(),
+        #[allow(unreachable_patterns)]
+        _ => "err:other".into(),
     }
 }
 
@@ -21,6 +23,8 @@ pub fn de_kind(e: &DE) -> String {
         DE::InvalidMessageFormat => "err:format".into(),
         DE::Amf0DeserializationError(a) => format!("err:amf:{}", &amf_de(a)[4..]),
         DE::Io(_) => "err:io".into(),
+        #[allow(unreachable_patterns)]
+        _ => "err:other".into(),
     }
 }
 
